@@ -1,5 +1,6 @@
 import LdkModel.Driver.Util
 import LdkModel.Model.Onion
+import LdkModel.Generated.OnionFail
 /- C14 driver: the model functions of Model/Onion.lean instantiated with ChaCha20 / HMAC-SHA256
    (`Onion.ldk`) and LDK's key derivations.  Ops (hex for bytes, `-` = empty):
      build <L|std> <prng-seed> <assoc-data> <n> (<shared-secret> <payload>)*   → <hop_data> <hmac> | err
@@ -7,7 +8,15 @@ import LdkModel.Model.Onion
      failbuild <shared-secret> <code> <data>                               → <packet>
      failwrap <shared-secret> <packet>                                     → <packet>
      faildecode <n> <shared-secret>* <packet>                              → attributed k code data | unattributable | …
-     failbuildx / failwrapx / faildecodex: the same with attribution data (hold times) — executable model only
+     failbuildx <ss> <code> <data> <hold>            → <packet> <attribution data>      (GENERATED buildFailurePacket)
+     failwrapx <ss> <packet> <attr|none> <hold>      → <packet> <attribution data|none> wire=<update_fail_htlc wire length>
+                                                       (GENERATED relayFailurePacket: process_failure_packet + crypt_failure_packet)
+     faildecodex <n> <ss>* <packet> <attr|none>      → attributed k code data holds=…
+     failchainx <n> <ss>* <k> <code> <dlen> <seed> <attr|legacy> <hold_k>,…,<hold_0>
+         the whole way back of a failure of `dlen` data bytes (byte i = seed + 7·i mod 256) from hop k, built with
+         (`attr`) or without (`legacy`: a failing node that does not support attribution data) attribution data,
+         relayed by hops k-1 … 0, decoded by the sender; answer = lengths / attribution data kept at each relay /
+         wire lengths / SHA-256 digests of the final packet and attribution data / decoded hop, code, data digest, hold times
    The payload TLV pretty-printer below is presentation only (the model treats payloads as opaque
    length-framed byte strings). -/
 namespace Ldk.Driver
@@ -77,6 +86,10 @@ def attrOf (s : String) : Option Attr :=
   let b := unhex s
   some ⟨b.take (MAX_HOPS * HOLD_TIME_LEN), b.drop (MAX_HOPS * HOLD_TIME_LEN)⟩
 
+def showAttr : Option Attr → String
+  | none => "none"
+  | some a => hex (a.holdTimes ++ a.hmacs)
+
 def pairsOf : List String → List (String × String)
   | a :: b :: rest => (a, b) :: pairsOf rest
   | _ => []
@@ -99,11 +112,36 @@ def c14 : Drv where
     | ["failwrap", ss, pkt] =>
       ((), hex (wrapFailure ldk (failKeysOfSecret (unhex ss)) (unhex pkt)))
     | ["failbuildx", ss, code, data, hold] =>
-      let (p, a) := buildFailureX ldk (failKeysXOfSecret (unhex ss)) (nat! code) (unhex data) (nat! hold)
-      ((), s!"{hex p} {hex (a.holdTimes ++ a.hmacs)}")
+      let p := buildFailurePacket ldk (failKeysXOfSecret (unhex ss)) (nat! code) (unhex data) (nat! hold)
+      ((), s!"{hex p.data} {showAttr p.attr}")
     | ["failwrapx", ss, pkt, attr, hold] =>
-      let (p, a) := relayFailureX ldk (failKeysXOfSecret (unhex ss)) (unhex pkt) (attrOf attr) (nat! hold)
-      ((), s!"{hex p} {hex (a.holdTimes ++ a.hmacs)}")
+      let p := relayFailurePacket ldk (failKeysXOfSecret (unhex ss)) none ⟨unhex pkt, attrOf attr⟩ (some (nat! hold))
+      ((), s!"{hex p.data} {showAttr p.attr} wire={updateFailHtlcWireLen p}")
+    | "failchainx" :: n :: rest =>
+      if rest.length ≠ nat! n + 6 then ((), "bad-op") else
+      let keys := (rest.take (nat! n)).map fun ss => failKeysXOfSecret (unhex ss)
+      let arg (i : Nat) : String := rest.getD (nat! n + i) ""
+      let k := nat! (arg 0)
+      let data := (List.range (nat! (arg 2))).map fun i => UInt8.ofNat (nat! (arg 3) + 7 * i)
+      let holds := ((arg 5).splitOn ",").map nat!     -- hold_k, hold_{k-1}, …, hold_0
+      match keys[k]? with
+      | none => ((), "bad-op")
+      | some fk =>
+        let p0 : FailPkt :=
+          if arg 4 == "legacy" then ⟨buildFailure ldk fk.base (nat! (arg 1)) data, none⟩
+          else buildFailurePacket ldk fk (nat! (arg 1)) data (holds.getD 0 0)
+        -- hops k-1 … 0 relay
+        let (p, kept, wires) := (List.range k).foldl (fun (st : FailPkt × List String × List String) j =>
+            let hop := k - 1 - j
+            let q := relayFailurePacket ldk (keys.getD hop fk) none st.1 (some (holds.getD (j + 1) 0))
+            (q, st.2.1 ++ [if q.attr.isSome then "1" else "0"], st.2.2 ++ [toString (updateFailHtlcWireLen q)]))
+          (p0, [], [])
+        let (r, hs) := decodeFailureX ldk keys p.data p.attr
+        let dec := match r with
+          | .attributed h c d => s!"attributed {h} {c} dlen={d.length} ddigest={hex (Prim.sha256 d)}"
+          | other => showFail other
+        let csv (l : List String) := if l.isEmpty then "none" else ",".intercalate l
+        ((), s!"len0={p0.data.length} attr0={if p0.attr.isSome then 1 else 0} wire0={updateFailHtlcWireLen p0} len={p.data.length} kept={csv kept} wire={csv wires} digest={hex (Prim.sha256 p.data)} adigest={match p.attr with | none => "none" | some a => hex (Prim.sha256 (a.holdTimes ++ a.hmacs))} dec={dec} holds={csv (hs.map toString)}")
     | "faildecodex" :: n :: rest =>
       if rest.length ≠ nat! n + 2 then ((), "bad-op") else
       let keys := (rest.take (nat! n)).map fun ss => failKeysXOfSecret (unhex ss)
